@@ -10,6 +10,7 @@ import z3
 
 from .core import CONST_AXIOMS, z3num_to_float
 from .funcs import UF, is_uf, rv
+from .fingerprint import fingerprint
 
 STATS = {"queries": 0, "unsat": 0, "sat": 0, "unknown": 0, "solver_s": 0.0}
 
@@ -36,10 +37,45 @@ def _collect(exprs):
     return list(apps.values()), has_int[0]
 
 
+_same_cache = {}
+
+
+def _same_term(a, b):
+    if a.eq(b):
+        return True
+    key = (a.get_id(), b.get_id())
+    if key in _same_cache:
+        return _same_cache[key][2]
+    fa, fb = fingerprint(a), fingerprint(b)
+    if fa is None or fb is None or fa != fb:
+        r = False
+    else:
+        from .ratform import is_identically_zero
+        r = is_identically_zero(a - b)
+    _same_cache[key] = (a, b, r)
+    return r
+
+
 class Abstraction:
     def __init__(self, exprs):
         self.apps, self.has_int = _collect(exprs)
-        self.sub = [(a, z3.Real(f"@{a.decl().name()}#{i}")) for i, a in enumerate(self.apps)]
+        # applications whose arguments are syntactically equal after polynomial normalisation
+        # share one atom (a sound instance of congruence, applied eagerly)
+        reps = {}
+        self.sub = []
+        self.atoms = []  # one (representative app, atom) per distinct atom
+        for i, a in enumerate(self.apps):
+            name = a.decl().name()
+            atom = None
+            for (r, v) in reps.get(name, []):
+                if r.num_args() == a.num_args() and all(_same_term(r.arg(k), a.arg(k)) for k in range(a.num_args())):
+                    atom = v
+                    break
+            if atom is None:
+                atom = z3.Real(f"@{name}#{i}")
+                reps.setdefault(name, []).append((a, atom))
+                self.atoms.append((a, atom))
+            self.sub.append((a, atom))
         self._cache = {}
 
     def __call__(self, e):
@@ -58,7 +94,7 @@ class Abstraction:
 
     def by_name(self):
         d = {}
-        for a, v in self.sub:
+        for a, v in self.atoms:
             d.setdefault(a.decl().name(), []).append((a, v))
         return d
 
@@ -69,7 +105,7 @@ def _enclosure(f, x, rel=1e-13):
     return rv(Fraction(lo)), rv(Fraction(hi))
 
 
-def axioms(ab, max_pairs=400, max_triples=600):
+def axioms(ab, max_pairs=3000, max_triples=600):
     """always-true facts about the abstracted atoms"""
     ax = []
     by = ab.by_name()
@@ -291,10 +327,20 @@ def free_vars(e):
     return out
 
 
-def prove(hyps, neg, timeout_ms=20000):
+def prove(hyps, neg, timeout_ms=20000, pairs=None):
     """decide hyps & neg.  Sound staging: `unsat` from a *subset* of the hypotheses is `unsat` of
     the whole; `sat` is only reported from the full set.  returns (status, ModelView|None, stage)"""
     t0 = time.time()
+    if pairs:
+        # identity fast path: both sides of every claimed equality have the same rational normal
+        # form over the abstracted atoms (hypothesis-free, sound wherever the divisions are defined)
+        from .ratform import is_identically_zero
+        ab = Abstraction(list(hyps) + [neg])
+        if all(is_identically_zero(ab(a) - ab(b)) for a, b in pairs):
+            STATS["queries"] += 1
+            STATS["unsat"] += 1
+            STATS["solver_s"] += time.time() - t0
+            return "unsat", None, "rational-normal-form"
     gv = free_vars(neg)
     hv = [free_vars(h) for h in hyps]
     stage0 = [h for h, v in zip(hyps, hv) if v and v <= gv]
